@@ -1,5 +1,7 @@
 //go:build verif
 
+// verif:checks c19   (bin/mkoverlay.sh adds this file only to the builds of these checks)
+
 package example
 
 import "github.com/hneemann/parser2/funcGen"
